@@ -5,12 +5,18 @@ design:     ProviderModel.tla / MC_Provider_<style>_<case>.cfg  (TLC, exhaustive
             id stability, every mutation reported, for both id styles and both case modes)
 spec->code: Gen_Provider prints every transition of the model's tree graph up to MaxLen calls (VIEW: each distinct
             tree is expanded once, reached by a shortest call sequence, and EVERY call from it is printed), with the
-            hazard tags of every prefix; -simulate produces sequences of 10 calls over the full alphabet.  Each
-            sequence is executed on a FRESH provider of every kind: the four MockProvider flavours (+ filter_events
+            hazard tags of every prefix; -simulate produces sequences of 10 calls over the full alphabet.
+            CONTENT family (EmitMode "content"): the same exhaustive enumeration over names a, b (depth 1) and ALL
+            18 contents of ProviderModel's table - byte strings drawn around the boundaries of a head+tail sampler
+            (0, 1, 700, 1024, 1025, 1500, 2048, 2049, 3000 bytes), as groups that are distinct but collide under
+            partial sampling (same first KiB and different after it, different only in the middle / tail / head);
+            once a file exists the generator writes the same bytes or a colliding partner over it / next to it.
+            The simulation draws contents group by group in the same way.  Each sequence is executed on a FRESH provider of every kind: the four MockProvider flavours (+ filter_events
             for the id-style ones in thorough) and FileSystemProvider over a fresh temporary directory.
 code->spec: after every call the harness records the result (exception class / returned id / hash) and the events
             drained since the previous call; and a FULL OBSERVATION of the provider: info_path/exists_path for every
-            path of the universe, info_oid/exists_oid/download/listdir for every id, hash_data for every content.
+            path of the universe, info_oid/exists_oid/hash_oid/download/listdir for every id, hash_data for every
+            content of the table (so a collision of the data-hash function itself is seen in every trace).
             Simulated sequences are observed after every call.  In the exhaustive family every call sequence is the
             last call of its own trace, so each trace is observed in full after its LAST call only (every call of the
             family is observed in some trace; observing the prefixes again would triple the cost for nothing).
@@ -40,21 +46,66 @@ NAME = {1: "a", 2: "A", 3: "b", 4: "é", 5: "a.b"}
 BAD = 6                                        # name code of "a name with a forbidden character"
 BAD_MOCK = "a?"                                # MockProvider: _forbidden_chars = ['?'] (the knob the repo's own tests use)
 BAD_FS = "n" * 300                             # file system: longer than NAME_MAX -> ENAMETOOLONG
-SIZES = [0, 1, 1023, 1024, 1025, 2048, 2049, 3000, 3000, 3000]          # = SizeOf in ProviderModel.tla
+KIB = 1024
+# One text; every content is a prefix of it with at most one short range of bytes replaced (= the table at SizeOf in
+# ProviderModel.tla: size, replaced range).  The members of a group are distinct byte strings that collide under
+# some partial sampling of the file (first KiB only, last KiB only, both, a sampled prefix taken for the whole).
+BASE = b"".join(b"line %05d of the document\n" % i for i in range(120))[:3000]
+CONTENT_SPEC = [(0, None), (1, None),
+                (700, None), (700, (684, 700)),                # < 1 KiB: differ in the last 16 bytes
+                (1024, None), (1024, (1023, 1024)),            # exactly 1 KiB: differ in the last byte
+                (1025, None), (1025, (1024, 1025)),            # 1 KiB + 1: same first KiB, differ in byte 1025
+                (1500, None), (1500, (1484, 1500)),            # 1-2 KiB: same first KiB, differ in the last 16 bytes
+                (2048, None), (2048, (2032, 2048)),            # exactly 2 KiB: same first KiB, differ in the last 16
+                (2049, None), (2049, (1024, 1025)),            # 2 KiB + 1: differ in the one byte of neither block
+                (3000, None), (3000, (1400, 1416)),            # > 2 KiB: 16 differs from 15 only in the middle,
+                (3000, (2984, 3000)), (3000, (0, 16))]         #          17 only in the tail, 18 only in the head
+NCONTENT = len(CONTENT_SPEC)
+SIZES = [n for n, _ in CONTENT_SPEC]                           # = SizeOf in ProviderModel.tla
 
 
 def content(c):
-    n = SIZES[c - 1]
-    if c == 10:                                # same first and last KiB as content 8, different middle
-        return (bytes([8]) * 1024 + bytes([10]) * (n - 2048) + bytes([8]) * 1024)
-    return bytes([c]) * n
+    n, rng = CONTENT_SPEC[c - 1]
+    b = BASE[:n]
+    if rng:
+        b = b[:rng[0]] + b"#" * (rng[1] - rng[0]) + b[rng[1]:]
+    return b
 
 
-CONTENT = {c: content(c) for c in range(1, 11)}
+CONTENT = {c: content(c) for c in range(1, NCONTENT + 1)}
 CONTENT_ID = {v: k for k, v in CONTENT.items()}
-assert len(CONTENT_ID) == 10
-SIZE_CLASS = {1: 0, 2: 1, 3: 1, 4: 2, 5: 2, 6: 2, 7: 3, 8: 3, 9: 3, 10: 3}
-SIZE_CLASS_NAME = {0: "0 bytes", 1: "< 1 KiB", 2: "1-2 KiB", 3: "> 2 KiB"}
+
+
+def size_class(c):                             # = SizeClass in ProviderModel.tla
+    n = SIZES[c - 1]
+    return 0 if n == 0 else 1 if n < KIB else 2 if n == KIB else 3 if n < 2 * KIB else 4 if n == 2 * KIB else 5
+
+
+def group(c):                                  # = Group in ProviderModel.tla
+    return 8 if c >= 15 else (c + 1) // 2
+
+
+SIZE_CLASS_NAME = {0: "0 bytes", 1: "< 1 KiB", 2: "exactly 1 KiB", 3: "1025..2047 bytes", 4: "exactly 2 KiB",
+                   5: "> 2 KiB"}
+
+
+def _check_contents():
+    """The byte strings are what the table in ProviderModel.tla says they are (machinery self-check)."""
+    ok = len(BASE) == 3000 and len(CONTENT_ID) == NCONTENT == 18 and all(len(CONTENT[c]) == SIZES[c - 1] for c in CONTENT)
+    head, tail = (lambda b: b[:KIB]), (lambda b: b[-KIB:])
+    for a, b in ((7, 8), (9, 10), (11, 12)):                   # same first KiB, differ after it
+        ok = ok and head(CONTENT[a]) == head(CONTENT[b]) and CONTENT[a][KIB:] != CONTENT[b][KIB:]
+    for a, b in ((13, 14), (15, 16)):                          # differ only in the middle
+        ok = ok and head(CONTENT[a]) == head(CONTENT[b]) and tail(CONTENT[a]) == tail(CONTENT[b])
+    ok = ok and head(CONTENT[15]) == head(CONTENT[17]) and tail(CONTENT[15]) != tail(CONTENT[17])      # tail only
+    ok = ok and CONTENT[15][16:] == CONTENT[18][16:] and head(CONTENT[15]) != head(CONTENT[18])        # head only
+    ok = ok and all(CONTENT[b].startswith(CONTENT[a]) for a, b in zip((2, 3, 5, 7, 9, 11, 13), (3, 5, 7, 9, 11, 13, 15)))
+    ok = ok and all(len({group(c) for c in CONTENT if SIZES[c - 1] == n}) == 1 for n in set(SIZES) - {0, 1})
+    if not ok:
+        raise MachineryError("content table of c16.py is not the one described in ProviderModel.tla")
+
+
+_check_contents()
 
 KINDS = {                                      # kind -> (OidIsPath, CaseSensitive, filter_events)
     "mock_oid_cs": (False, True, False),
@@ -238,6 +289,10 @@ class Sut:
                 self.info_rec(None, rec)
                 rec["f"] = 9
             rec["oid"] = self.oid_enc(o, issue=False)        # the id that was asked about
+            try:
+                rec["ho"] = self.henc(p.hash_oid(o))
+            except Exception:
+                rec["ho"] = 0
             buf = io.BytesIO()
             try:
                 p.download(o, buf)
@@ -253,9 +308,9 @@ class Sut:
                 rec["le"], rec["ls"] = self.exc_class(e), []
             O.append(rec)
         hd = []
-        for c in range(1, 11):
+        for c in range(1, NCONTENT + 1):
             try:
-                hd.append(self.henc(p.hash_data(io.BytesIO(CONTENT[c]))))
+                hd.append(self.henc(p.hash_data(fresh(c))))
             except Exception:
                 hd.append(0)
         return {"P": P, "O": O, "hd": hd}
@@ -316,6 +371,11 @@ class Sut:
             shutil.rmtree(self.dir, ignore_errors=True)
 
 
+def fresh(c):
+    """the bytes of content c as a stream over a NEW bytes object (equal bytes, never the same object)"""
+    return io.BytesIO(bytes(bytearray(CONTENT[c])))
+
+
 def execute(kind, case, scratch):
     """Run one call sequence on a fresh provider; return the trace of what really happened."""
     calls = case["calls"]
@@ -339,12 +399,12 @@ def execute(kind, case, scratch):
             ev = {"op": op, "p": c["p"], "x": c["x"], "c": c["c"], "exc": 0, "rid": [0] if s.oip else 0, "rh": 0}
             try:
                 if op == "create":
-                    r = p.create(s.pstr(c["p"]), io.BytesIO(CONTENT[c["c"]]))
+                    r = p.create(s.pstr(c["p"]), fresh(c["c"]))
                     ev["rid"], ev["rh"] = s.oid_enc(r.oid), s.henc(r.hash)
                 elif op == "mkdir":
                     ev["rid"] = s.oid_enc(p.mkdir(s.pstr(c["p"])))
                 elif op == "upload":
-                    r = p.upload(s.oid_real(c["x"]), io.BytesIO(CONTENT[c["c"]]))
+                    r = p.upload(s.oid_real(c["x"]), fresh(c["c"]))
                     ev["rid"], ev["rh"] = s.oid_enc(r.oid), s.henc(r.hash)
                 elif op == "rename":
                     ev["rid"] = s.oid_enc(p.rename(s.oid_real(c["x"]), s.pstr(c["p"])))
@@ -389,22 +449,22 @@ def _set(xs):
     return "{" + ", ".join(str(x) for x in sorted(xs)) + "}"
 
 
-def model_constants(oip, cs, names, contents, bad=()):
-    return ("CONSTANTS\n Names = %s\n MaxDepth = 2\n Contents = %s\n OidIsPath = %s\n CaseSensitive = %s\n"
-            " BadNames = %s\n" % (_set(names), _set(contents), "TRUE" if oip else "FALSE", "TRUE" if cs else "FALSE",
-                                  _set(bad)))
+def model_constants(oip, cs, names, contents, bad=(), depth=2):
+    return ("CONSTANTS\n Names = %s\n MaxDepth = %d\n Contents = %s\n OidIsPath = %s\n CaseSensitive = %s\n"
+            " BadNames = %s\n" % (_set(names), depth, _set(contents), "TRUE" if oip else "FALSE",
+                                  "TRUE" if cs else "FALSE", _set(bad)))
 
 
-def gen_cfg(ctx, oip, cs, names, contents, maxlen, mode, bad=()):
+def gen_cfg(ctx, oip, cs, names, contents, maxlen, mode, bad=(), depth=2):
     name = "Gen_Provider_%s_%s_%d_%d.cfg" % (flavour_name(oip, cs), mode, maxlen, len(list(names)))
-    text = model_constants(oip, cs, names, contents, bad) + \
+    text = model_constants(oip, cs, names, contents, bad, depth) + \
         " MaxMutations = 0\n MaxLen = %d\n EmitMode = \"%s\"\nSPECIFICATION GenSpec\n%sINVARIANT Emit\nCHECK_DEADLOCK FALSE\n" \
-        % (maxlen, mode, "VIEW GenView\n" if mode == "action" else "")
+        % (maxlen, mode, "VIEW GenView\n" if mode in ("action", "content") else "")
     return tc.gen_cfg(ctx, name, text)
 
 
 def trace_cfg(ctx, oip, cs):
-    text = model_constants(oip, cs, range(1, 7), range(1, 11), bad=[BAD]) + \
+    text = model_constants(oip, cs, range(1, 7), range(1, NCONTENT + 1), bad=[BAD]) + \
         " MaxMutations = 0\nSPECIFICATION TraceSpec\nPOSTCONDITION Report\nCHECK_DEADLOCK FALSE\n"
     return tc.gen_cfg(ctx, "Trace_Provider_%s.cfg" % flavour_name(oip, cs), text)
 
@@ -482,7 +542,7 @@ def signature(kind, case, trace, line, clause):
 DIVERGE = ("ErrorClass", "QueriesAgree", "IdStable", "IdIsNormalisedPath")
 
 
-def judge(ctx, results, what, stats=None):
+def judge(ctx, results, what, stats=None, min_batch=1200):
     """TLC judges the recorded traces, one batch of JVMs per (id style, case mode).
     Traces of the exhaustive family are observed in full only after their last call; their shorter prefixes are
     traces of their own.  When TLC found that the provider's tree already differed from the model after a proper
@@ -509,7 +569,7 @@ def judge(ctx, results, what, stats=None):
         oip, cs, traces, meta = g
         part = Part(max(1, min(ctx.workers, round(ctx.workers * len(traces) / max(1, nall)))))
         viols, _ = tc.validate(part, "Trace_Provider", trace_cfg(ctx, oip, cs), traces,
-                               "%s [%s]" % (what, flavour_name(oip, cs)), min_batch=1200)
+                               "%s [%s]" % (what, flavour_name(oip, cs)), min_batch=min_batch)
         return part, viols
 
     with ThreadPoolExecutor(max_workers=len(groups) or 1) as pool:
@@ -566,9 +626,13 @@ def run(ctx):
         "Gen_Provider (TLC) prints every transition of ProviderModel's tree graph (each distinct tree expanded once, "
         "reached by a shortest call sequence; every create/mkdir/upload/rename/delete from it, failing ones included) "
         "- quick: up to 3 calls over names a, A (case-sensitive flavours) / a, A, b (case-insensitive), thorough: up "
-        "to 3 calls over a, A, b and up to 4 calls over a, A; depth 2; one small and one > 2 KiB content - plus "
-        "-simulate sequences of 10 calls over the full alphabet (a, A, b, e-acute, a.b, forbidden name) and all ten "
-        "contents of the four size classes.  Every sequence is executed on a fresh provider of each kind and judged "
+        "to 3 calls over a, A, b and up to 4 calls over a, A; depth 2; one < 1 KiB and one > 2 KiB content - plus the "
+        "content family: every transition up to 2 (quick) / 3 (thorough) calls over names a, b at depth 1 and all 18 "
+        "contents (sizes 0, 1, 700, 1024, 1025, 1500, 2048, 2049, 3000; per size a group of byte strings that "
+        "share the first KiB and differ after it / differ only in the middle, the tail or the head), where a file "
+        "is followed by the same bytes or a colliding partner - plus -simulate sequences of 10 calls over the full "
+        "alphabet (a, A, b, e-acute, a.b, forbidden name) and all 18 contents, group by group.  hash_data of all 18 "
+        "contents is recorded at every observation.  Every sequence is executed on a fresh provider of each kind and judged "
         "by Trace_Provider (TLC).  distinct = distinct (provider kind, call sequence); non-trivial = at least one call "
         "of the sequence returned without exception on the provider")
     ctx.assume(
@@ -589,7 +653,9 @@ def run(ctx):
         "object ids numbered in order of first appearance) in vh/checks/c16.py")
 
     from concurrent.futures import ThreadPoolExecutor
-    contents = [2, 8]
+    contents = [3, 15]                          # the tree families: one < 1 KiB and one > 2 KiB content
+    all_contents = range(1, NCONTENT + 1)
+    content_names, content_len = [1, 3], (2 if quick else 3)   # the content family: names a, b; depth 1
     nsim = 20 if quick else 200
     keep = 4 if quick else 6
 
@@ -621,22 +687,30 @@ def run(ctx):
             runs.append(res)
         return out, runs
 
+    def content_family(fl):
+        res = ctx.tlc("Gen_Provider", gen_cfg(ctx, fl[0], fl[1], content_names, all_contents, content_len, "content",
+                                              depth=1), workers=1, count=False,
+                      what="content family: all transitions up to %d calls, all contents [%s]"
+                      % (content_len, flavour_name(*fl)))
+        return parse_gen(res, content_names, 1, "content " + flavour_name(*fl)), res
+
     def simulated(fl):
-        res = ctx.tlc("Gen_Provider", gen_cfg(ctx, fl[0], fl[1], range(1, 7), range(1, 11), 10, "final", bad=[BAD]),
+        res = ctx.tlc("Gen_Provider", gen_cfg(ctx, fl[0], fl[1], range(1, 7), range(1, NCONTENT + 1), 10, "final", bad=[BAD]),
                       workers=1, simulate="num=%d" % nsim, depth=11, extra=["-seed", str(ctx.seed + 1)],
                       what="simulate 10 calls, full alphabet [%s]" % flavour_name(*fl), count=False)
         return parse_gen(res, range(1, 7), 2, "simulate " + flavour_name(*fl), every=True), res
 
-    # design level (4), exhaustive family (4), simulated long histories (4): twelve TLC runs side by side; the
-    # exhaustive family is executed and judged while the design runs and the simulations are still going
+    # design level (4), exhaustive tree family (4), content family (4), simulated long histories (4): sixteen TLC
+    # runs side by side; the exhaustive families are executed and judged while the design runs and the simulations are still going
     only = os.environ.get("VERIF_C16_KINDS", "").split(",") if os.environ.get("VERIF_C16_KINDS") else None   # debugging aid
     part = os.environ.get("VERIF_C16_PART", "all")                                                           # debugging aid
     stats, results, counted = {}, {}, []
     workers = make_pool(ctx)
-    pool = ThreadPoolExecutor(max_workers=12)
+    pool = ThreadPoolExecutor(max_workers=16)
     try:
         f_design = [pool.submit(design, fl) for fl in FLAVOURS]
         f_fam = {fl: pool.submit(exhaustive, fl) for fl in FLAVOURS}
+        f_con = {fl: pool.submit(content_family, fl) for fl in FLAVOURS}
         f_sim = {fl: pool.submit(simulated, fl) for fl in FLAVOURS}
 
         def kinds_plan(by_flavour, extra=None):
@@ -651,10 +725,10 @@ def run(ctx):
                 plan.append((kind, cases))
             return plan
 
-        def do(plan, what):
+        def do(plan, what, min_batch=1200):
             res = run_cases(ctx, plan, workers)
             dbg("executed " + what)
-            n = judge(ctx, res, what, stats)
+            n = judge(ctx, res, what, stats, min_batch)
             dbg("judged " + what)
             ctx.count(evaluations=n)
             for kind, (cs_, ts_) in res.items():
@@ -668,9 +742,24 @@ def run(ctx):
             counted.extend(runs)
             if len(fam[fl]) < 500:
                 raise MachineryError("generator produced only %d histories" % len(fam[fl]))
+        ctx.extra["exhaustive_transitions"] = {flavour_name(*k): len(v) for k, v in fam.items()}
+        con = {}
+        for fl, f in f_con.items():
+            con[fl], res = f.result()
+            counted.append(res)
+            if len(con[fl]) < 300:
+                raise MachineryError("content generator produced only %d histories" % len(con[fl]))
+            seen = {c["c"] for h in con[fl] for c in h["calls"] if c["op"] in ("create", "upload")}
+            pairs = {(h["calls"][0]["c"], h["calls"][1]["c"]) for h in con[fl] if len(h["calls"]) >= 2
+                     and h["calls"][0]["op"] == "create" and h["calls"][1]["op"] in ("create", "upload")}
+            want = {(a, b) for a in all_contents for b in all_contents if group(a) == group(b)}
+            if seen != set(all_contents) or not want <= pairs:
+                raise MachineryError("content generator: contents %s, %d of %d colliding / identical pairs"
+                                     % (sorted(seen), len(want & pairs), len(want)))
+            fam[fl] = fam[fl] + con[fl]
         dbg("exhaustive generators")
         ctx.cov["exhaustive"] = True
-        ctx.extra["exhaustive_transitions"] = {flavour_name(*k): len(v) for k, v in fam.items()}
+        ctx.extra["content_family_transitions"] = {flavour_name(*k): len(v) for k, v in con.items()}
         # exemplars of the listed findings are re-executed on every run, together with the exhaustive family
         plan = kinds_plan(fam if part != "sims" else {fl: [] for fl in FLAVOURS}, extra=True)
         ctx.extra["family_sizes"] = {k: len(v) for k, v in plan}
@@ -696,7 +785,8 @@ def run(ctx):
             plan = kinds_plan(sims)
             for k, v in plan:
                 ctx.extra["family_sizes"][k] = ctx.extra["family_sizes"].get(k, 0) + len(v)
-            do(plan, "simulated sequences of 10 calls")
+            # few but long traces, observed in full after every call: judged in small batches, on all the cores
+            do(plan, "simulated sequences of 10 calls", min_batch=25 if quick else 150)
         counted += [f.result() for f in f_design]
         dbg("design runs")
     finally:
